@@ -15,6 +15,7 @@ EXPLANATION = (
 )
 BOUNDS = {"quick": "10 topologies over 2..3 vertices (tree, loop, multi-edge, landmark edges with offsets, several fixed), R^2 and R^3, one iteration from an arbitrary start", "thorough": "20 fixed topologies over 2..4 vertices, all non-empty fixed subsets of the 3-vertex loop, plus 24 seeded connected multigraphs with 4..6 vertices and up to 8 edges"}
 OUTSIDE = "5..30 vertices (identical per-edge algebra, but the solver verdict covers the bound only); rounding; SuperLU"
+BOUNDS = {k: v + "; shared-start (all vertices views of one array), restart (same Graph optimized again from a new guess) and far-start (2 iterations; float64 validation runs start about 1e7 away) variants of three topologies" for k, v in BOUNDS.items()}
 ASSUMPTIONS = ["solver contract: returns dx with H dx = rhs (nonsingular case)", "information symmetric", "connected + >=1 fixed + SPD information => unique minimiser (convexity argument)"]
 
 
